@@ -134,7 +134,7 @@ def main(tier, seed):
     profile = {"dyadic_values": True, "params": False, "sym_init": False}
     items = []
     i = -1
-    want_n = 16 if quick else 100
+    want_n = 10 if quick else 100
     while len(items) < want_n:
         i += 1
         s = run.seed * 7919 + i
